@@ -74,6 +74,7 @@ def var_stream(res, rng, tier, GroupBy):
             res.sample(case)
         try:
             gb = GroupBy(api.make_key(col, kind, "numpy"))
+            api.warm(gb, rng.choice([None, None, None] + api.WARM_OPS), n)          # the grouping may have been used before
             m = None if mask is None else np.array(mask[1], dtype=bool)
             out = getattr(gb, op)(arr, mask=m, ddof=ddof)
         except Exception as e:  # noqa: BLE001
@@ -142,6 +143,7 @@ def quantile_stream(res, rng, tier, GroupBy):
         gp = {lab: pos for lab, pos in group_positions(col, mask, n).items() if pos}
         try:
             gb = GroupBy(api.make_key(col, kind, "numpy"))
+            api.warm(gb, rng.choice([None, None, None] + api.WARM_OPS), n)          # the grouping may have been used before
             m = None if mask is None else np.array(mask[1], dtype=bool)
             out = gb.median(arr, mask=m) if op == "median" else gb.quantile(arr, q, mask=m)
         except Exception as e:  # noqa: BLE001
@@ -189,6 +191,7 @@ def apply_stream(res, rng, tier, GroupBy):
             continue
         try:
             gb = GroupBy(pd.Series(api.make_key(col, kind, "numpy"), index=idx))
+            api.warm(gb, rng.choice([None, None, None] + api.WARM_OPS), n)
             m = None if mask is None else np.array(mask[1], dtype=bool)
             out = gb.apply(pd.Series(arr, index=idx), f, mask=m)
         except Exception as e:  # noqa: BLE001
